@@ -7,11 +7,62 @@ sys.path.insert(0, HERE)
 
 ID = 'C18'
 LEVEL = 'exploration'
-SIDECARS = []
-FUNCTIONS = []
-TRUSTED = []
+SIDECARS = ['ranges']
+# the proof part (contracts/ranges.py): every function of the generator / the mutations whose random draws can be shown
+# non-empty from the function's own text plus the configuration invariants
+FUNCTIONS = [
+    'src.generators.generator.Generator.gen_top_level_declaration',
+    'src.generators.generator.Generator._gen_func_params_with_default',
+    'src.generators.generator.Generator._select_superclass',
+    'src.generators.generator.Generator.gen_class_fields',
+    'src.generators.generator.Generator.gen_class_functions',
+    'src.generators.generator.Generator.gen_assignment',
+    'src.generators.generator.Generator._get_classes_with_assignable_fields',
+    'src.generators.generator.Generator.gen_field_access',
+    'src.generators.generator.Generator.gen_array_expr',
+    'src.generators.generator.Generator.gen_is_expr',
+    'src.generators.generator.Generator._gen_func_call',
+    'src.generators.generator.Generator._gen_func_call_ref',
+    'src.generators.generator.Generator._gen_func_ref',
+    'src.generators.generator.Generator.gen_type_params',
+    'src.generators.generator.Generator._get_func_ret_type',
+    'src.generators.generator.Generator._gen_func_params',
+    'src.generators.generator.Generator._gen_side_effects',
+    'src.generators.generator.Generator._get_matching_class',
+    'src.generators.generators.gen_integer_constant',
+    'src.generators.generators.gen_real_constant',
+    'src.generators.generators.gen_bool_constant',
+    'src.generators.utils.select_class_type',
+    'src.ir.type_utils.get_irrelevant_parameterized_type',
+    'src.ir.type_utils.find_irrelevant_type',
+    'src.transformations.type_overwriting.TypeOverwriting.visit_program',
+]
+CONFIG_INVARIANTS = {
+    'limits.cls.max_fields': ('>=', 1),
+    'limits.cls.max_funcs': ('>=', 2),
+    'limits.fn.max_params': ('>=', 0),
+    'limits.fn.max_side_effects': ('>=', 0),
+    'limits.max_type_params': ('>=', 3),
+}
+TRUSTED = [
+    'slice mode (DESIGN 2.7) for the 25 functions of contracts/ranges.py: statements outside the subset are havocked; the '
+    'obligations sit at the calls of ut.random.choice / integer / sample (a draw whose argument cannot be evaluated makes the '
+    'function unanalysable, it is never dropped)',
+    'random.choice(xs) fails only on an empty sequence, random.randint(a, b) only when a > b, random.sample(xs, k) only when '
+    'k > len(xs) (CPython semantics of the three externals); the argument of choice is a sequence (types are not checked)',
+    'x.append(e) on a local of unknown static type leaves x non-empty; lists are values (aliases of a local list are not '
+    'tracked); len() / truthiness of a value of unknown static type follow its run-time kind (prelude axioms alen_*, truth_*)',
+    'ASSUMED precondition of Generator.gen_type_params: count is None or 0 <= count <= 4 (callers pass the number of type '
+    'variables of a type of the program); not proved at the call sites, checked at run time on every program of the bounded tier',
+    'configuration invariants (contracts/ranges.py global_invariant): literal defaults of src/generators/config.py + no store '
+    'of those fields anywhere else in src/ and hephaestus.py + json_config / process_arg never called (syntactic census)',
+]
 ASSUMPTIONS = [
-    'bounded stand-in only (labelled bounded, nothing is counted as proved): generate -> translate -> TypeErasure -> '
+    'proof part (31 site obligations over 25 functions + 6 configuration obligations): the random draws of those functions '
+    'never see an empty range / candidate list / over-sized sample (three of the crash classes named by the property: '
+    '"empty candidate lists"); every other draw of the pipeline (36 of 60 sites: the argument comes from a callee such as '
+    'find_subtypes / get_types / get_generators) and every other exception class is covered by the bounded stand-in only',
+    'bounded stand-in (labelled bounded, nothing of it is counted as proved): generate -> translate -> TypeErasure -> '
     'translate -> TypeOverwriting -> translate on the real code for a finite list of (language, seed, switches, depth '
     'limit, mutation options); "terminates" is a work budget (generate_expr calls, visitor calls, feasibility checks), '
     'never a proof; the nesting bound is a function of the configured depth derived from the generator code',
@@ -19,7 +70,12 @@ ASSUMPTIONS = [
     'subtyping, substitution, diagnostics glue) is discharged as safety[...] obligations of C19/C16/C15/C06/C07/C14; the '
     'generator itself (2700 lines of randomised recursive descent) is outside the reach of the VC generator',
 ]
-NOT_UNDER_CONTRACT = ['src.generators.generator.Generator (all gen_* methods)', 'src.transformations.*',
+NOT_UNDER_CONTRACT = ['src.generators.generator.Generator (all gen_* methods except the draws of the 18 listed in FUNCTIONS)',
+                      'draws not under contract: Generator.generate_expr, gen_variable, gen_equality_expr, gen_logical_expr, '
+                      'gen_comparison_expr, gen_conditional (1 of 3), _get_subclass, select_type, _create_type_params_from_etype; '
+                      'type_utils._construct_related_types, _get_type_arg_variance (proved under C08/C17), '
+                      '_compute_type_variable_assignments, choose_type; TypeOverwriting.visit_func_decl; '
+                      'ProgramProcessor._get_transformation_schedule, inject_fault', 'src.transformations.*',
                       'src.translators.*', 'hephaestus.gen_program (only its try/except shape: 4 syntactic obligations)']
 
 PIPELINE_CALLS = ('get_program', 'process_cp_transformations', 'process_ncp_transformations', 'save_program',
@@ -35,7 +91,8 @@ def custom_proof(tier):
     repo = os.environ.get('HEPH_REPO', '/repo')
     tree = ast.parse(open(os.path.join(repo, 'hephaestus.py')).read())
     fn = next((n for n in tree.body if isinstance(n, ast.FunctionDef) and n.name == 'gen_program'), None)
-    out = []
+    from pyvc import statecheck
+    out = statecheck.config_invariants(repo, CONFIG_INVARIANTS, os.path.join(HERE, 'contracts', 'ranges.py'))
 
     def ob(name, ok, why=''):
         out.append(dict(name='hephaestus.gen_program/' + name, function='hephaestus.gen_program',
@@ -160,11 +217,50 @@ def _word_pool_check():
     return 5, out
 
 
+def _hand_mutation_check(tier):
+    """bounded: the mutations on the hand-built programs of the C03 / C04 harness (constructs the generator produces rarely:
+    explicit type arguments of generic calls, bounded type variables, shadowing, super-constructor arguments, ...) -- every
+    language x scenario x a few random streams, erased and not erased: TypeErasure, TypeOverwriting and the translator must
+    not raise."""
+    for m in [k for k in sys.modules if k == 'src' or k.startswith('src.')]:
+        del sys.modules[m]
+    from specs import mutations_ref as R
+    M = R.load(REPO)
+    out, n = [], 0
+    rngs = [1000, 1001, 1002, 1003, 1004] if tier == 'quick' else list(range(1000, 1010))
+    seen = set()
+    for lang in ('java', 'kotlin', 'groovy', 'scala'):
+        for ident in R.HAND:
+            try:
+                P0 = R.build_input(M, 'hand', lang, ident)
+            except Exception:
+                continue
+            for erased in (False, True):
+                for rng in rngs:
+                    n += 1
+                    fi = dict(prop='C04', source='hand', lang=lang, ident=ident, erased=erased, rng=rng)
+                    try:
+                        vio, _, _ = R.eval_c04(M, P0, fi)
+                    except Exception as e:
+                        vio = [dict(check='bounded[overwrite:exception]', exception=repr(e)[:300])]
+                    for v in vio:
+                        if 'exception' not in str(v.get('check', '')):
+                            continue
+                        key = (str(v.get('exception', ''))[:60])
+                        if key in seen:
+                            continue
+                        seen.add(key)
+                        out.append(dict(check='bounded[hand-built:mutation-raises]', function=v.get('function'),
+                                        lang=lang, ident=ident, erased=erased, rng=rng, actual=v.get('exception')))
+    return n, out
+
+
 def bounded(tier, seed, stop_first=False):
     r = _b.bounded(tier, seed, stop_first)
     n, extra = _get_types_check()
     n3, extra3 = _word_pool_check()
-    n, extra = n + n3, extra + extra3
+    n4, extra4 = _hand_mutation_check(tier)
+    n, extra = n + n3 + n4, extra + extra3 + extra4
     r['evaluations'] = r.get('evaluations', 0) + n
     r.setdefault('violations', []).extend(extra)
     return r
@@ -181,5 +277,10 @@ def replay(payload):
         n, out = _get_types_check()
         for v in out:
             print('%s: seed %s: %s' % (v['check'], v.get('seed'), v.get('actual')))
+        return not out
+    if str(fi.get('check', '')).startswith('bounded[hand-built'):
+        n, out = _hand_mutation_check('thorough')
+        for v in out:
+            print('%s: %s %s erased=%s rng=%s: %s' % (v['check'], v['lang'], v['ident'], v['erased'], v['rng'], v.get('actual')))
         return not out
     return _b.replay(payload)
